@@ -12,15 +12,21 @@ Three oracles (DESIGN.md section 5, C02):
               SDMXSettings / SDMXGSettings / SDMX1Settings / SDMXG1Settings / SDMXFullSettings.
  refinement   the same comparison at three resolutions (coarse: aux_lambd = aug_beta = 2.0, lmax 6; default 1.6 / 10;
               fine: 1.4 / 10, grid level 3, alpha_max 30000; SDMX: lambda 2.0 / 1.8 / 1.65): each error below its
-              calibrated bound and err_fine <= 1.25 max(err_default, err_coarse) (refinement is not strictly monotone).
+              calibrated bound and err_fine <= 2 max(err_default, err_coarse) (2.5 for SDMX; refinement is not strictly
+              monotone, measured worst ratios 1.35 / 1.6).
  paths        pairwise agreement of the fast / reference-grade code paths on all grid points with rho > 1e-3:
               onsite_direct vs onsite_spline vs train_gen (through ciderpress.pyscf.descriptors.get_descriptors with a
               prepared analyzer), Gaussian vs spline plan, etb vs zexp ladder; sdmx.EXXSphGenerator vs
               sdmx_slow.EXXSphGenerator vs the descriptors getter.
 
-Statistic: RMS-relative error over the evaluation points, sqrt(mean(err^2) / mean(ref^2)), plus a worst-point error
-max |err_i| / max(|ref_i|, 0.1 rms(ref)).  Bounds are ~3x the largest value observed on the unchanged tree over seeds
-0-4 (both tiers), per spec family / rho_mult / resolution (tables below).
+Statistics per (case, settings object, spin, feature): RMS-relative error over the evaluation points,
+sqrt(mean(err^2) / mean(ref^2)); worst-point error max |err_i| / max(|ref_i|, 0.1 rms(ref)); and, for the definition
+oracle, |median(fast / ref) - 1| (robust against a few badly resolved points, sensitive to prefactors).  Bounds are 3x the
+largest value observed on the unchanged tree (vlib/c02_bounds.py, generated from calibration runs over seeds 0-4 quick and
+0-1 thorough), per oracle name = statistic x spec family x rho_mult x resolution x orbital basis (the auxiliary basis of
+the fast path is derived from the orbital basis: 6-31G converges 3-5x worse than def2-SVP).  A statistic whose calibrated
+bound exceeds 0.5 (version-i se_r2 and the se_rvec dot products with rho_mult = one: RMS errors up to 0.9 on this tree,
+documented as numerically delicate) is recorded but not gated; those features are decided on their median statistic.
 """
 import math
 import os
@@ -36,7 +42,9 @@ RULE = ("case kinds: nldf-def (molecule, basis, RKS | UKS, GGA | MGGA exponent l
         "(thorough) evaluation points drawn at random among CIDER grid points (level 1) with spin-scaled rho > 1e-3), "
         "nldf-refine (3 resolutions, evaluation points on the level-1 and level-3 grids), nldf-paths (5 alternative "
         "generator configurations + the descriptors getter on all points with rho > 1e-3), sdmx (5 settings classes, "
-        "3 lambdas, fast / slow / descriptors paths; points at least 0.02 bohr from a nucleus). Densities are SCF "
+        "3 lambdas, fast / slow / descriptors paths; points at least 0.02 bohr from a nucleus; the H^1d family in cases "
+        "of its own). Molecules H2O, NH3, HF, HOF, LiH, H2O2 (RKS) and NH2, CH3, O2, Li (UKS), bases def2-SVP / 6-31G, "
+        "geometries jittered by 0.03 A. Densities are SCF "
         "iterates (LDA, 1-5 cycles from the minao guess, orbitals rotated by a small random orthogonal matrix), per "
         "spin channel for UKS. A sub-case = (case, settings object, spin, feature); it is non-trivial when the "
         "reference is non-zero and self-converged (two quadrature resolutions agree to 1/5 of the bound) and counted "
@@ -64,17 +72,28 @@ ASSUMPTIONS = [
     "the reference needs the evaluation point to be >= 0.02 bohr from a nucleus for SDMX (its own self-error grows to "
     "1e-4 .. 1e-3 at 0.01 bohr); NLDF points are unrestricted",
     "bounds are calibrated truncation levels of the fast algorithms on the unchanged tree (x3), not digits of agreement; "
-    "a defect changing a feature by less than its bound is invisible here",
+    "a defect changing a feature by less than its bound is invisible here (typical RMS bounds: 1e-3 for rho_mult = expnt, "
+    "1e-2 for rho_mult = one with def2-SVP, 4e-2 with 6-31G, 1e-5 .. 2e-3 for SDMX); statistics whose bound would exceed "
+    "0.5 are recorded, not gated (vi:se_r2, vi:dot(grad_rho,se_rvec), some worst-point statistics of se_rvec dots)",
     "not covered: lambda < 1.65 for SDMX (at lambda = 1.5 the Gaussian collocation in R is unstable: errors of O(0.1 .. "
     "1e4) at single points, recorded in the samples, not gated) and aux_lambd = aug_beta < 1.4 for NLDF (1.3 / 1.3 at "
     "level 3 returned values of 1e4 x the feature: reported, not gated); l > 2 orbital bases; PBC / plane-wave paths",
 ]
 REQUIRED_CALLS = [
+    # interpolation coefficients (Gaussian / spline plans, version k), exponent -> ladder index maps
     "libmcider.cider_coefs_gto_gq", "libmcider.cider_coefs_spline_gq", "libmcider.cider_coefs_vk1_gq",
-    "libmcider.reduce_angc_to_ylm", "libmcider.contract_rad_to_orb", "libmcider.multiply_atc_integrals",
-    "libmcider.project_conv_to_spline", "libmcider.compute_mol_convs_single_new", "libmcider.generate_atc_integrals_all",
-    "libmcider.solve_atc_coefs", "libmcider.SDMXeval_rad_loop", "libmcider.SDMXcontract_ao_to_bas",
-    "libmcider.contract_shl_to_alpha_l1", "libmcider.SDMXylm_loop",
+    "libmcider.cider_ind_etb", "libmcider.cider_ind_zexp", "libmcider.cider_ind_clip",
+    # grid -> auxiliary basis, convolution integrals and their application, l = 1 assembly
+    "libmcider.reduce_angc_to_ylm", "libmcider.contract_rad_to_orb", "libmcider.generate_atc_integrals_all",
+    "libmcider.solve_atc_coefs", "libmcider.multiply_atc_integrals", "libmcider.multiply_atc_integrals_vk",
+    "libmcider.fill_l1_coeff_fwd", "libmcider.add_lp1_term_fwd", "libmcider.add_lp1_onsite_new_fwd",
+    # auxiliary basis -> evaluation points (spline interpolators: onsite_direct / onsite_spline / train_gen)
+    "libmcider.project_conv_to_spline", "libmcider.compute_mol_convs_single_new", "libmcider.compute_spline_maps",
+    "libmcider.contract_orb_to_rad", "libmcider.reduce_ylm_to_angc",
+    # SDMX fast path and the slow path's convolution exponent hook
+    "libmcider.SDMXeval_rad_loop", "libmcider.SDMXcontract_ao_to_bas", "libmcider.SDMXcontract_ao_to_bas_l1",
+    "libmcider.contract_shl_to_alpha_l1", "libmcider.SDMXylm_loop", "libmcider.SDMXylm_grad",
+    "libmcider.set_global_convolution_exponent",
 ]
 
 CALIB = bool(os.environ.get("C02_CALIB"))  # calibration runs: nothing fails, observed maxima are read from the summary
@@ -90,12 +109,20 @@ RESOLUTIONS = {
     "fine": (3, dict(aux_lambd=1.4, aug_beta=1.4, lmax=10, alpha_max=30000)),
 }
 SDMX_LAMBDAS = {"coarse": 2.0, "default": 1.8, "fine": 1.65}
+# loose monotonicity: err_fine <= FACTOR x max(err_default, err_coarse).  Measured worst err_fine / max(err_default,
+# err_coarse) on the unchanged tree: 1.35 (NLDF vi:se, expnt; the fine resolution is evaluated on other points, those of
+# the level-3 grid) and 1.6 (SDMX H0 j=1: lambda = 1.65 is already past the optimum of the Gaussian collocation in R for
+# some systems, errors 1e-5 .. 6e-4)
+REFINE_FACTOR = 2.0
+SDMX_REFINE_FACTOR = 2.5
 
 # ---------------------------------------------------------------------------------------------------------------
 # calibrated bounds.  vlib/c02_bounds.py holds, per oracle name, the LARGEST value observed on the unchanged tree in the
-# calibration runs (C02_CALIB=1; seeds 0-4 quick, 0-1 thorough); the bound is SAFETY x that value (floored).
+# calibration runs (C02_CALIB=1 ./check C02 --no-evidence; seeds 0-4 quick, 0-1 thorough); the bound is SAFETY x that
+# value (floored).  Regenerate the table with the same runs when the case generator changes.
 SAFETY = 3.0
 FLOOR = 2e-5
+CAP = 0.5  # a statistic whose calibrated bound exceeds this cannot separate a break from truncation: recorded, not gated
 
 
 def _table():
@@ -114,9 +141,10 @@ def _tol(name, floor=FLOOR):
     if name in tab:
         return max(SAFETY * tab[name], floor)
     # same statistic / feature under the other rho_mult
-    for a, b in (("|one]", "|expnt]"), ("|expnt]", "|one]")):
-        if name.endswith(a) and name[:-len(a)] + b in tab:
-            return max(SAFETY * tab[name[:-len(a)] + b], floor)
+    # rho_mult = 'expnt' features are weighted towards the core and converge better than 'one': an 'expnt' oracle never
+    # seen in calibration may borrow the (looser) bound of its 'one' twin, never the other way round
+    if "|expnt]" in name and name.replace("|expnt]", "|one]") in tab:
+        return max(SAFETY * tab[name.replace("|expnt]", "|one]")], floor)
     return None
 
 
@@ -124,6 +152,9 @@ def _tcheck(rec, name, obs, mechanism, detail=None, floor=FLOOR):
     tol = _tol(name, floor)
     if tol is None:
         rec.note("uncalibrated[%s]" % name, obs)
+        return None
+    if tol > CAP and not CALIB:
+        rec.notes["not_gated[%s]" % name] = max(float(obs), rec.notes.get("not_gated[%s]" % name, 0.0))
         return None
     return rec.check(name, obs, tol, mechanism=mechanism, detail=detail)
 
@@ -149,48 +180,74 @@ def gen_cases(tier, seed):
         cases.append(c)
 
     npts = 100 if q else 400
-    # definition cases: level x spin, molecule drawn at random (quick: one RKS and one UKS molecule per level)
+    rpool = RKS_MOLS[:2] if q else RKS_MOLS
+    upool = UKS_MOLS[:2] if q else UKS_MOLS
+    cnt = {"rks": int(rng.integers(100)), "uks": int(rng.integers(100)), "basis": int(rng.integers(3))}
+
+    def pick(spin):
+        cnt[spin] += 1
+        pool = rpool if spin == "rks" else upool
+        return pool[cnt[spin] % len(pool)]
+
+    def pick_basis():
+        cnt["basis"] += 1
+        return ["def2-svp", "6-31g", "def2-svp"][cnt["basis"] % 3]  # period 3: not locked to the spin / level loops
+
+    # definition cases: level x spin (quick: 2 RKS + 2 UKS cases, both levels, both bases)
     reps = 1 if q else 3
     k = 0
     for rep in range(reps):
         for level in ("MGGA", "GGA"):
             for spin in ("rks", "uks"):
-                pool = RKS_MOLS[:2] if (q and spin == "rks") else UKS_MOLS[:2] if q else (RKS_MOLS if spin == "rks" else UKS_MOLS)
-                mol = str(pool[(int(rng.integers(100)) + rep) % len(pool)])
-                basis = str(rng.choice(["def2-svp", "6-31g"], p=[0.6, 0.4]))
+                mol = pick(spin)
                 add("def-%02d-%s-%s-%s" % (k, mol, spin, level), "nldf-def", 6.0 if spin == "uks" else 4.0, mol=mol,
-                    basis=basis, spin=spin, level=level, npts=npts, ncyc=int(rng.integers(1, 6)),
+                    basis=pick_basis(), spin=spin, level=level, npts=npts, ncyc=int(rng.integers(1, 6)),
                     mults=["one", "expnt"])
                 k += 1
     # refinement cases
     nref = 2 if q else 6
     for r in range(nref):
         spin = "rks" if (q or r % 3 != 2) else "uks"
-        mol = str(rng.choice(RKS_MOLS[:3] if spin == "rks" else UKS_MOLS[:2]))
         level = "MGGA" if r % 2 == 0 else "GGA"
-        add("refine-%02d-%s-%s-%s" % (r, mol, spin, level), "nldf-refine", 6.0, mol=mol, basis="def2-svp" if r % 2 == 0 else "6-31g",
-            spin=spin, level=level, npts=npts if q else 200, ncyc=int(rng.integers(1, 6)),
-            mult="one" if r % 2 == 0 else "expnt")
+        mol = pick(spin)
+        add("refine-%02d-%s-%s-%s" % (r, mol, spin, level), "nldf-refine", 6.0 if spin == "rks" else 10.0, mol=mol,
+            basis="def2-svp" if r % 2 == 0 else "6-31g", spin=spin, level=level, npts=npts if q else 200,
+            ncyc=int(rng.integers(1, 6)), mult="one" if r % 2 == 0 else "expnt")
     # path comparisons
     npath = 3 if q else 8
     for r in range(npath):
         spin = "rks" if r % 3 != 1 else "uks"
-        mol = str(rng.choice((RKS_MOLS[:2] if q else RKS_MOLS) if spin == "rks" else (UKS_MOLS[:2] if q else UKS_MOLS)))
-        add("paths-%02d-%s-%s" % (r, mol, spin), "nldf-paths", 4.0, mol=mol, basis=str(rng.choice(["def2-svp", "6-31g"])),
+        mol = pick(spin)
+        add("paths-%02d-%s-%s" % (r, mol, spin), "nldf-paths", 4.0, mol=mol, basis=pick_basis(),
             spin=spin, level="MGGA" if r % 2 == 0 else "GGA", ncyc=int(rng.integers(1, 6)),
             mult="one" if r % 4 < 2 else "expnt", versions=["j", "i", "k"] if r % 2 == 0 else ["ij", "k", "j"])
     # SDMX
     nsd = 2 if q else 6
     for r in range(nsd):
         spin = "rks" if r % 2 == 0 else "uks"
-        mol = str(rng.choice((RKS_MOLS[:2] if q else RKS_MOLS[:5]) if spin == "rks" else (UKS_MOLS[:2] if q else UKS_MOLS)))
-        add("sdmx-%02d-%s-%s" % (r, mol, spin), "sdmx", 5.0 if spin == "rks" else 8.0, threads=2, mol=mol,
-            basis=str(rng.choice(["def2-svp", "6-31g"])), spin=spin, npts=60 if q else 200, ncyc=int(rng.integers(1, 6)))
+        mol = pick(spin)
+        add("sdmx-%02d-%s-%s" % (r, mol, spin), "sdmx", 5.0 if spin == "rks" else 8.0, mol=mol,
+            basis=pick_basis(), spin=spin, npts=60 if q else 200, ncyc=int(rng.integers(1, 6)))
+    # the H^1d family (SDMXFullSettings only) in cases of its own
+    for r in range(1 if q else 3):
+        spin = "rks" if r % 2 == 0 else "uks"
+        mol = pick(spin)
+        add("sdmx-h1d-%02d-%s-%s" % (r, mol, spin), "sdmx", 2.0 if spin == "rks" else 4.0, mol=mol, basis=pick_basis(),
+            spin=spin, npts=24 if q else 60, ncyc=int(rng.integers(1, 6)), h1d=True)
     return cases
+
+
+_CTX = {"basis": ""}
+
+
+def _nm(name):
+    """Truncation-limited NLDF oracles are calibrated per orbital basis (the auxiliary basis is derived from it)."""
+    return "%s@%s" % (name, _CTX["basis"])
 
 
 def run_case(case, rec):
     rng = rng_for(case["seed"], PROP_NO, case["idx"])
+    _CTX["basis"] = case.get("basis", "")
     rec.tag("kind", case["kind"])
     for k in ("mol", "basis", "spin", "level"):
         if case.get(k) is not None:
@@ -355,28 +412,37 @@ class _Refs:
 
 def _decide(rec, key, label, res, fast, lo, hi, hi_idx, spin, extra=None):
     """Definition oracle for one feature; returns (RMS-relative error, reference self-error); the error is None when
-    the reference is unresolved (self-error above 1/5 of the bound) or the oracle is uncalibrated."""
+    the reference is unresolved (self-error above 1/5 of the bound), the oracle is uncalibrated, or none of its three
+    statistics can be gated (calibrated bound above CAP)."""
     pre = "" if res == "default" else res + "_"
-    n_rms, n_worst, n_med = ("%sdef_%s[%s]" % (pre, st, key) for st in ("rms", "worst", "median"))
-    b_rms, b_worst, b_med = _tol(n_rms), _tol(n_worst), _tol(n_med)
+    names = {st: _nm("%sdef_%s[%s]" % (pre, st, key)) for st in ("rms", "worst", "median")}
+    tols = {st: _tol(n) for st, n in names.items()}
     s_rms, s_worst, sc = _stats(lo[hi_idx], hi)
-    if b_rms is None or b_worst is None or b_med is None:
-        rec.note("uncalibrated[%s]" % n_rms, None)
+    if any(t is None for t in tols.values()):
+        rec.note("uncalibrated[%s]" % names["rms"], None)
         return None, s_rms
-    if not (s_rms <= b_rms / 5 and s_worst <= b_worst / 5) or sc == 0:
+    gated = {st: t for st, t in tols.items() if t <= CAP or CALIB}
+    rms, worst, _ = _stats(fast, lo)
+    obs = {"rms": rms, "worst": worst, "median": _median_dev(fast, lo)}
+    for st in tols:
+        if st not in gated:
+            k = "not_gated[%s]" % names[st]
+            rec.notes[k] = max(float(obs[st]), rec.notes.get(k, 0.0))
+    if not gated:
+        return None, s_rms
+    need_rms = min(t for st, t in gated.items() if st != "worst") if any(st != "worst" for st in gated) else 1e9
+    need_worst = gated.get("worst", 1e9)
+    if not (s_rms <= need_rms / 5 and s_worst <= need_worst / 5) or sc == 0:
         rec.note("reference_unresolved[%s%s,spin%d]" % (pre, label, spin), [s_rms, s_worst])
         return None, s_rms
-    rec.check("ref_self_rms[%s]" % key.split("|")[0], s_rms, b_rms / 5, mechanism="harness:c02-reference-self-convergence")
-    rms, worst, _ = _stats(fast, lo)
-    med = _median_dev(fast, lo)
-    det = {"spin": spin, "rms_rel": rms, "worst": worst, "median_ratio_minus_1": med, "reference_self_rms": s_rms,
-           "resolution": res}
+    rec.check("ref_self_rms[%s]" % key.split("|")[0], s_rms, need_rms / 5, mechanism="harness:c02-reference-self-convergence")
+    det = {"spin": spin, "rms_rel": obs["rms"], "worst": obs["worst"], "median_ratio_minus_1": obs["median"],
+           "reference_self_rms": s_rms, "resolution": res}
     if extra:
         det.update(extra)
-    mech = "nldf[%s]:definition" % label if res == "default" else "nldf[%s]:definition[%s]" % (label, res)
-    rec.check(n_rms, rms, b_rms, mechanism=mech, detail=det)
-    rec.check(n_worst, worst, b_worst, mechanism=mech, detail=det)
-    rec.check(n_med, med, b_med, mechanism=mech, detail=det)
+    mech = "nldf[%s]:definition" % label  # same mechanism at every resolution; the oracle name carries the resolution
+    for st, t in gated.items():
+        rec.check(names[st], obs[st], t, mechanism=mech, detail=det)
     return rms, s_rms
 
 
@@ -482,7 +548,7 @@ def _run_nldf_refine(case, rec, rng):
         if len(e) < 3:
             continue
         floor = 5 * max(v[1] for v in e.values())
-        ratio = e["fine"][0] / max(1.25 * max(e["default"][0], e["coarse"][0]), floor, 1e-300)
+        ratio = e["fine"][0] / max(REFINE_FACTOR * max(e["default"][0], e["coarse"][0]), floor, 1e-300)
         rec.check("refine[%s]" % key, ratio, 1.0 if not CALIB else 1e9, mechanism="nldf[%s]:refinement" % label,
                   detail={"coarse": e["coarse"][0], "default": e["default"][0], "fine": e["fine"][0], "spin": s})
         rec.nontrivial("refine|%s|%d|%d|s%d" % (label, iset, k, s))
@@ -569,8 +635,8 @@ def _run_nldf_paths(case, rec, rng):
                     grp = key.split("|")[0] if cls != "same" else "*"
                     det = {"feature": label, "spin": s, "rms_rel": rms, "worst": worst}
                     fl = 1e-7 if cls == "same" else FLOOR
-                    _tcheck(rec, "path_rms[%s|%s]" % (pname, grp), rms, "nldf:%s" % pname, det, floor=fl)
-                    _tcheck(rec, "path_worst[%s|%s]" % (pname, grp), worst, "nldf:%s" % pname, det, floor=10 * fl)
+                    _tcheck(rec, _nm("path_rms[%s|%s]" % (pname, grp)), rms, "nldf:%s" % pname, det, floor=fl)
+                    _tcheck(rec, _nm("path_worst[%s|%s]" % (pname, grp)), worst, "nldf:%s" % pname, det, floor=10 * fl)
                     if sc > 0:
                         rec.nontrivial("%s|%s|%d|s%d" % (pname, label, k, s))
                     cur = sample["pairs"].get(pname, 0.0)
@@ -582,10 +648,16 @@ def _run_nldf_paths(case, rec, rng):
 # ---------------------------------------------------------------------------------------------------------------
 # SDMX
 
-def _sdmx_sets(rng):
-    """(class name, settings, list of (family, j, ratio)) in the feature order of the plans."""
+def _sdmx_sets(rng, h1d=False):
+    """(class name, settings, list of (family, j, ratio)) in the feature order of the plans.  h1d: only the
+    SDMXFullSettings object that carries the H^1d family (kept in cases of its own)."""
     from ciderpress.dft import settings as st
     out = []
+    if h1d:
+        pows = [int(p) for p in rng.permutation([0, 1, 2])]
+        sd = {1.0: (pows, [1, 0, 3, 3])}
+        fl = [("0", pows[0], 1.0)] + [("1", j, 1.0) for j in pows] + [("1d", j, 1.0) for j in pows]
+        return [("SDMXFullSettings", st.SDMXFullSettings(sd), fl)]
     pows = [int(p) for p in rng.permutation([0, 1, 2])]
     out.append(("SDMXSettings", st.SDMXSettings(pows), [("0", j, 1.0) for j in pows]))
     pows = [int(p) for p in rng.permutation([0, 1, 2])]
@@ -599,7 +671,7 @@ def _sdmx_sets(rng):
                 [("0", j, 1.0) for j in pows] + [("0d", j, 1.0) for j in pows] + [("1", j, 1.0) for j in pows]))
     pows = [int(p) for p in rng.permutation([0, 1, 2])]
     r2 = float(rng.choice([1.5, 2.0]))
-    sd = {1.0: (pows, [3, 3, 3, 3]), r2: (pows, [3, 2, 2, 0])}
+    sd = {1.0: (pows, [3, 3, 3, 0]), r2: (pows, [3, 2, 2, 0])}
     fl = []
     for r in sorted(sd):
         c = sd[r][1]
@@ -624,6 +696,11 @@ def _sdmx_key(fam, j, ratio):
     return "H%s,j=%d" % (fam, j) if ratio == 1.0 else "H%s,j=%d,ratio" % (fam, j)
 
 
+# the SDMX fast path is accurate to 1e-7 .. 1e-3 depending on system and row, with a spread of 100x between systems for
+# the same row: bounds below these floors would only measure that spread (any realistic break is >= 1e-2)
+SDMX_FLOORS = (2e-4, 1e-3)
+
+
 def _sdmx_names(key, res):
     """Oracle names (rms, worst) of an SDMX row; H^1d has no truncation level of its own on this tree (it does not
     reproduce the documented integral, see the report): it is held to twice the level of the H^1 row of the same j."""
@@ -635,9 +712,9 @@ def _sdmx_tols(key, res):
     n_rms, n_worst = _sdmx_names(key, res)
     if key.startswith("H1d"):
         k1 = key.replace("H1d", "H1")
-        t = [_tol(n, 1e-6) for n in _sdmx_names(k1, res)]
+        t = [_tol(n, f) for n, f in zip(_sdmx_names(k1, res), SDMX_FLOORS)]
         return [None if x is None else (x if CALIB else 2 * x) for x in t]
-    return [_tol(n_rms, 1e-6), _tol(n_worst, 1e-6)]
+    return [_tol(n_rms, SDMX_FLOORS[0]), _tol(n_worst, SDMX_FLOORS[1])]
 
 
 def _run_sdmx(case, rec, rng):
@@ -647,7 +724,7 @@ def _run_sdmx(case, rec, rng):
     mol, dms, nspin = _system(case, rng)
     grids = _cider_grids(mol, 1)
     rhos = [_rho_on(mol, grids.coords, d, "GGA") for d in dms]
-    sets = _sdmx_sets(rng)
+    sets = _sdmx_sets(rng, h1d=bool(case.get("h1d")))
     sample = {"mol": case["mol"], "spin": case["spin"], "features": {}, "lambda_1.5_worst_point_error": {}}
     nq = case["npts"]
     nhi = max(6, nq // 4)
@@ -716,14 +793,14 @@ def _run_sdmx(case, rec, rng):
                            "reference_self_rms": s_rms, "median_ratio": float(np.median(feats[res][k] / ref_lo[k]))}
                     if alt is not None:
                         det["rms_rel_vs_4pi_int_R^(4-j)|d(R rho1)/dR|^2"] = _stats(feats[res][k], alt)[0]
-                    mech = "sdmx[%s]:definition" % label if res == "default" else "sdmx[%s]:definition[%s]" % (label, res)
+                    mech = "sdmx[%s]:definition" % label  # same mechanism at every lambda
                     n_rms, n_worst = _sdmx_names(key, res)
                     rec.check(n_rms, rms, br, mechanism=mech, detail=det)
                     rec.check(n_worst, worst, bw, mechanism=mech, detail=det)
                 if alt is not None:
                     sample.setdefault("H1d_alternative_reading_rms", {})[label] = _stats(feats["default"][k], alt)[0]
-                floor = max(5 * s_rms, 2e-6)
-                ratio_ref = e["fine"] / max(1.25 * max(e["default"], e["coarse"]), floor)
+                floor = max(10 * s_rms, 1e-4)
+                ratio_ref = e["fine"] / max(SDMX_REFINE_FACTOR * max(e["default"], e["coarse"]), floor)
                 rec.check("sdmx_refine[%s]" % key, ratio_ref, 1.0 if not CALIB else 1e9, mechanism="sdmx[%s]:refinement" % label,
                           detail={"coarse": e["coarse"], "default": e["default"], "fine": e["fine"], "class": cname, "spin": s})
                 rec.nontrivial("%s|%s|s%d" % (cname, label, s))
